@@ -7,6 +7,7 @@
   composed function computes; hence (`C13Run.lean`, `runR_crop_eq_whole`) **`runCbca_crop_eq_whole`**: for the models'
   arrays the run on a crop equals the run on the whole pair on every pixel whose clipped cone lies in the crop.
 -/
+import PandoraModel.Model.PipelineRun
 import PandoraModel.Properties.C13Run
 import PandoraModel.Properties.C13PipelineCbca
 import Mathlib.Algebra.Order.Field.Basic
@@ -94,36 +95,6 @@ theorem cbcaStep_strip (Q : CbcaParams) (a b : Locality.Img CbcaCell)
   cases ha : a p <;> cases hb : b p <;> simp [ha, hb] at hp ⊢
 
 /-! ### the aggregation of the run -/
-
-/-- what cross-based aggregation is configured with -/
-structure AggCfg where
-  dist : Nat
-  I : Rat
-  mr : Cbca.MinRule
-
-/-- the input of the cbca model for the run: the pair, the masks, the cost volume of the matching-cost model -/
-def cbcaInputOf (K : RunCfg) (G : AggCfg) (x : MC.Input) : Cbca.Input where
-  H := x.L.rows
-  W := x.L.cols
-  off := MC.half x.w
-  imL := fun y c => x.L.px y c
-  hasMskL := x.mL.present
-  mskL := fun y c => x.mL.code y c
-  validL := x.mL.valid
-  imR := fun y c => x.R.px y c
-  hasMskR := x.mR.present
-  mskR := fun y c => x.mR.code y c
-  validR := x.mR.valid
-  dist := G.dist
-  I := G.I
-  subpix := x.sp
-  disp := fun j => (((gminOf x * (x.sp : Int) + (j : Int) : Int)) : Rat) / ((x.sp : Int) : Rat)
-  cv := fun y c dsp => K.ev (costVolume x y c dsp)
-  mr := G.mr
-
-/-- the aggregated cost row of a pixel -/
-def aggRow (K : RunCfg) (G : AggCfg) (x : MC.Input) (r c : Nat) : List Val :=
-  (List.range (nOf x)).map (Cbca.aggregate (cbcaInputOf K G x) r c)
 
 /-- the configuration of `cbcaStep` for the run -/
 def cbcaQ (K : RunCfg) (G : AggCfg) (x : MC.Input) : CbcaParams :=
@@ -282,11 +253,6 @@ theorem cbcaQ_crop (K : RunCfg) (G : AggCfg) {x x' : MC.Input} (hp : paramsOf x'
   unfold gmaxOf at h2
   unfold cbcaQ cbcaParamsOf cbcaInputOf nOf gminOf gmaxOf
   simp only [p2, p3, p4, p5, p7, p8, h1, h2]
-
-/-- the whole run with cross-based aggregation on both sides -/
-def fullRunCbca (K K' : RunCfg) (G : AggCfg) (V : CrossCheck.Variant) (CP : CrossCheck.Params) (x : MC.Input) :
-    Option (Nat → Nat → CrossCheck.PixOut) :=
-  fullRunR K K' V CP x (aggRow K G x) (aggRow K' G (swapInput x))
 
 /-- the cone of the run with aggregation -/
 def runCbcaCone (K K' : RunCfg) (G : AggCfg) (CP : CrossCheck.Params) (x : MC.Input) : Cone :=
